@@ -96,11 +96,13 @@ def run(tier, seed):
             acc.c["histories"] += 1
             if r["history"]:
                 acc.c["nt_nonempty_histories"] += 1
-            if "G" in r["history"]:
+            if "G" in r["history"] or "N" in r["history"]:
                 acc.c["nt_histories_with_registration"] += 1
             w = {"mode": mode, "history": r["history"], "ops": "A=exhaust queens4, B=minimise, P=abandon after 1 solution, R=reuse probe Problem, "
                  "G=register custom propagator/heuristics/consistency algorithm, S=shaving run, V=solve a variant of the probe "
-                 "(same constraint types and arities, other parameters)"}
+                 "(same constraint types and arities, other parameters), L=extend and solve another problem declared from the list objects "
+                 "part 'alias' of the probe is declared from, N=register and use a user propagator whose function has the same __name__ as "
+                 "the one part 'custom' of the probe registers"}
             if "error" in r:
                 acc.violation(f"{mode}:history-makes-probe-raise", dict(w, error=r["error"]), "after this history the probe raises")
                 continue
@@ -123,7 +125,7 @@ def run(tier, seed):
         "distinct_nontrivial": acc.c["nt_cases_with_2+_solutions"] + acc.c["nt_nonempty_histories"],
         "rule": "case = (problem of the universe slice, configuration, enumerate|minimise): run twice in an interpreted process and "
                 "twice in a JIT-compiled process, and in an interpreted process that runs the slice in reverse order, digests of (solution sequence, result, 13 statistics, abort) compared; history = "
-                "every word over {A,B,P,R,G,S,V} up to the length bound, run in a child forked from a pristine process, then the "
+                "every word over {A,B,P,R,G,S,V,L,N} up to the length bound, run in a child forked from a pristine process, then the "
                 "fixed probe; non-trivial = case with >= 2 solutions / non-empty history",
         "histories_with_registration": acc.c["nt_histories_with_registration"],
         "exhaustive": True,
